@@ -364,51 +364,56 @@ func R19(group string) Rule {
 			within := setOf(scope)
 			// (a) predicate on a copy of the stored row
 			fcalls := scopeCallsTo(scope, core.PkgBttest, "filterRow")
-			if len(fcalls) != 1 {
-				c.Unknown("R19", "cam/predicate-call", fn.Pos(), "expected one filterRow call, found %d", len(fcalls))
+			if len(fcalls) == 0 {
+				c.Unknown("R19", "cam/predicate-call", fn.Pos(), "no filterRow call reachable from CheckAndMutateRow")
 				return
 			}
-			fc := fcalls[0]
-			okCopy := false
-			var copiedFrom []ssa.Value // what the evaluated copy was made of, seen from the RPC
-			if cp, ok := core.Resolve(fc.Call.Args[1]).(*ssa.Call); ok && core.FuncIs(cp.Call.StaticCallee(), core.PkgBttest, "copyRow") {
-				copiedFrom = P.Origins(cp.Call.Args[0], within)
-				okCopy = len(copiedFrom) > 0
-				for _, o := range copiedFrom {
-					fromReader := false
-					for _, s := range rowSources(P, o, map[ssa.Value]bool{}) {
-						if s.kind == srcReader {
-							fromReader = true
-						}
-					}
-					if !fromReader {
-						okCopy = false
-					}
-				}
-			}
-			c.Check(okCopy, "R19", "cam/predicate-on-copy", fc.Pos(), "the predicate runs on copyRow of the row read from the store", "the predicate filter is evaluated on the authoritative row: cells it strips are lost when the row is written back")
-			c.Check(P.AllOrigins(fc.Call.Args[0], within, func(o ssa.Value) bool {
-				return strings.Contains(strings.Join(fieldChain(o), "."), "PredicateFilter")
-			}), "R19", "cam/predicate-is-request's", fc.Pos(), "the evaluated filter is req.PredicateFilter", "the evaluated filter is not the request's predicate")
-			// the row the decision is based on and the row that is written back come from one read
 			acalls := scopeCallsTo(scope, core.PkgBttest, "applyMutations")
-			if len(acalls) == 1 {
-				same := len(copiedFrom) > 0
-				for _, o := range copiedFrom {
-					for _, w := range P.Origins(acalls[0].Call.Args[1], within) {
-						if !sameRow(P, o, w) {
-							same = false
+			for fi, fc := range fcalls {
+				sfx := ""
+				if fi > 0 {
+					sfx = fmt.Sprintf("#%d", fi+1)
+				}
+				okCopy := false
+				var copiedFrom []ssa.Value // what the evaluated copy was made of, seen from the RPC
+				if cp, ok := core.Resolve(fc.Call.Args[1]).(*ssa.Call); ok && core.FuncIs(cp.Call.StaticCallee(), core.PkgBttest, "copyRow") {
+					copiedFrom = P.Origins(cp.Call.Args[0], within)
+					okCopy = len(copiedFrom) > 0
+					for _, o := range copiedFrom {
+						fromReader := false
+						for _, s := range rowSources(P, o, map[ssa.Value]bool{}) {
+							if s.kind == srcReader {
+								fromReader = true
+							}
+						}
+						if !fromReader {
+							okCopy = false
 						}
 					}
 				}
-				c.Check(same, "R19", "cam/decision-and-write-on-one-read", acalls[0].Pos(), "the predicate is evaluated on (a copy of) the very row read that is then mutated and stored", "the predicate is evaluated on one read of the row and the mutations are applied to another read: a write admitted in between is neither seen by the predicate nor excluded — two check-and-mutates can both act on a state only one of them could have seen")
-			}
-			// emptiness ("yields at least one cell") is judged on the filtered copy
-			for i, ec := range callsTo(fc.Parent(), core.PkgBttest, "isEmpty") {
-				if !core.InstrReaches(fc, ec) {
-					continue // the no-predicate branch looks at the row itself
+				c.Check(okCopy, "R19", "cam/predicate-on-copy"+sfx, fc.Pos(), "the predicate runs on copyRow of the row read from the store", "the predicate filter is evaluated on the authoritative row: cells it strips are lost when the row is written back")
+				c.Check(P.AllOrigins(fc.Call.Args[0], within, func(o ssa.Value) bool {
+					return strings.Contains(strings.Join(fieldChain(o), "."), "PredicateFilter")
+				}), "R19", "cam/predicate-is-request's"+sfx, fc.Pos(), "the evaluated filter is req.PredicateFilter", "the evaluated filter is not the request's predicate")
+				// the row the decision is based on and the row that is written back come from one read
+				if len(acalls) == 1 {
+					same := len(copiedFrom) > 0
+					for _, o := range copiedFrom {
+						for _, w := range P.Origins(acalls[0].Call.Args[1], within) {
+							if !sameRow(P, o, w) {
+								same = false
+							}
+						}
+					}
+					c.Check(same, "R19", "cam/decision-and-write-on-one-read"+sfx, acalls[0].Pos(), "the predicate is evaluated on (a copy of) the very row read that is then mutated and stored", "the predicate is evaluated on one read of the row and the mutations are applied to another read: a write admitted in between is neither seen by the predicate nor excluded — two check-and-mutates can both act on a state only one of them could have seen")
 				}
-				c.Check(core.SameValue(ec.Call.Args[0], fc.Call.Args[1]), "R19", fmt.Sprintf("cam/emptiness-of-filtered-copy#%d", i+1), ec.Pos(), "isEmpty is applied to the row the predicate filtered", "after the predicate ran, emptiness is tested on a different row than the one the predicate filtered: a predicate that strips every cell still reports a match")
+				// emptiness ("yields at least one cell") is judged on the filtered copy
+				for i, ec := range callsTo(fc.Parent(), core.PkgBttest, "isEmpty") {
+					if !core.InstrReaches(fc, ec) {
+						continue // the no-predicate branch looks at the row itself
+					}
+					c.Check(core.SameValue(ec.Call.Args[0], fc.Call.Args[1]), "R19", fmt.Sprintf("cam/emptiness-of-filtered-copy%s#%d", sfx, i+1), ec.Pos(), "isEmpty is applied to the row the predicate filtered", "after the predicate ran, emptiness is tested on a different row than the one the predicate filtered: a predicate that strips every cell still reports a match")
+				}
 			}
 			// (b) selector identity
 			var sel ssa.Value
